@@ -7,7 +7,7 @@ from props._design import *  # noqa: F401,F403
 from props import _design as D
 
 ID = "C04"
-PROP_FILES = ["Properties/C04.v"]
+PROP_FILES = ["Properties/C04.v", "Properties/C04_matrix.v"]
 THEOREMS = ["C04_labelled_product", "C04_treatment_indicator", "C04_labels_columns_count"]
 ASSUMPTIONS = ["integer-valued numeric columns (products exact in float64)",
                "levels are str / Categorical / ordered Categorical / small integers via C()"]
@@ -55,10 +55,20 @@ def gen(rng, tier):
              "y ~ (0 + f | g + h) + (1 | g)", "y ~ (x | g:h)", "y ~ C(k):o", "y ~ o + c", "f ~ x", "y ~ (f | C(k))"]
     for f in fixed:
         cases.append({"formula": f, "frame": gen_dm.make_frame(rng), "na": "drop", "kind": "fixed"})
+    # a spline basis with no column at all (df=0, degree=0, no intercept): listed finding KF-C04-1
+    for f in ["y ~ bs(x, df=0, degree=0)", "y ~ z + bs(x, df=0, degree=0)", "y ~ x + (bs(z, df=0, degree=0) | g)"]:
+        cases.append({"formula": f, "frame": gen_dm.make_frame(rng), "na": "drop", "kind": "zero-width"})
     return cases
 
 
 def oracle(c):
+    msg = _oracle(c)
+    if msg and re.search(r"bs\([^()]*df=0[^()]*degree=0", c["formula"]):
+        return "[class:zero_width_spline] " + msg
+    return msg
+
+
+def _oracle(c):
     import numpy as np
     try:
         d = dm.build(c)
